@@ -72,6 +72,12 @@ for c in checks:
     if c["property_id"] == "C07":
         c["note"] = c["note"] + " VM stage: " + VM_NOTE
 
+
+AUTH_NOTE = 'Trusted: the shadow of sealed commands and the byte-level classification (honest / forged in a bound field / outcome undetermined) in /verif/sim/authsim/src. Real code: policy parser, compiler, VM, VmPolicy, aranya-crypto DefaultEngine (seeded Csprng), crypto/device/envelope/idam/perspective FFIs, in-memory key store, ClientState, linear storage, sync requester/responder, on the signing policy shipped in aranya-model (ffi-policy.md, verbatim). Stubs: transport (one explicit mutation per sync response), effect sink. Mutations whose outcome the statement does not determine (parent max cut, priority, trailing bytes, policy bytes, unsigned merge-shaped commands) are counted, not asserted. One recorded known finding (merge-parent re-parenting accepted). Sampled search: a clean batch is evidence, not proof.'
+checks += [
+ dict(property_id="C35", engine="authsim", technique="deterministic simulation with field-aware transport corruption: 2-4 replicas running the real signing policy and crypto exchange honest commands while the simulated transport mutates sync responses (payload, command name, author, signature, id, parent, re-parenting, swaps between honest commands, replays, injection, byte flips, truncation); shadow of every sealed command decides accept/reject; quiescence convergence", text="A delivered command is accepted iff it is byte-identical to an honestly sealed command; any change to a bound field is rejected with nothing stored, no fact, effects rolled back; rejected forgeries do not poison later honest syncs.", note=AUTH_NOTE, design="DESIGN.md section 5 (C35), 13"),
+]
+
 # Properties served by engines that are not finished yet are listed here and moved to `checks` when ready.
 pending = {
 }
